@@ -22,6 +22,9 @@ PROPS = {
     "C05": P(5, "fault_enumeration",
              quick=dict(checks=60, timeout=900, shrinktime="15s"),
              thorough=dict(checks=300, shards=12, timeout=3000, shrinktime="30s")),
+    "C06": P(6, "exploration",
+             quick=dict(checks=200, timeout=900, shrinktime="15s"),
+             thorough=dict(checks=1500, shards=10, timeout=3000, race=True)),
     "C09": P(9, "exploration",
              quick=dict(checks=6000, timeout=600),
              thorough=dict(checks=60000, shards=8, timeout=1800, fuzz=[("FuzzC09", 180)])),
